@@ -548,14 +548,15 @@ impl Observer for RedeliveryObserver {
         w: &World,
         who: usize,
         idx: usize,
-        before: Option<&Full>,
+        before: Option<&Vec<Full>>,
         outcome: &Outcome,
         redelivery: bool,
     ) -> Result<(), Failure> {
         if !redelivery {
             return Ok(());
         }
-        let Some(before) = before else { return Ok(()) };
+        let Some(before_all) = before else { return Ok(()) };
+        let before = &before_all[0];
         let cl = &w.clients[who];
         let rec = cl.delivered.get(&idx).expect("delivery recorded");
         // did an earlier hand-over take effect?
@@ -567,7 +568,8 @@ impl Observer for RedeliveryObserver {
             return Ok(());
         }
         // the first echo of an own commit / message is the confirmation, handled as first delivery
-        let after = w.full(who);
+        let after_all = w.full_all(who);
+        let after = after_all[0].clone();
         self.checked += 1;
         let ev = &w.relay[idx];
         let own = ev.author == who;
@@ -582,7 +584,7 @@ impl Observer for RedeliveryObserver {
         if moved {
             self.nontrivial += 1;
         }
-        if *before != after {
+        if *before_all != after_all {
             return Err(Failure::new(
                 "redelivery-changed-state",
                 format!(
@@ -665,7 +667,7 @@ impl Observer for Multi<'_> {
         w: &World,
         who: usize,
         idx: usize,
-        before: Option<&Full>,
+        before: Option<&Vec<Full>>,
         outcome: &Outcome,
         redelivery: bool,
     ) -> Result<(), Failure> {
@@ -950,5 +952,387 @@ impl PointerObserver {
 impl Observer for PointerObserver {
     fn after_call(&mut self, w: &World, who: usize, what: &str) -> Result<(), Failure> {
         self.check_client(w, who, what)
+    }
+}
+
+// ---------------------------------------------------------------------------------------------
+// C05: authorisation of roster / data changes, identity stability, refused => unchanged
+// ---------------------------------------------------------------------------------------------
+
+#[derive(Default)]
+pub struct AuthzObserver {
+    pub strict: bool,
+    pub judged: u64,
+    pub nontrivial: u64,
+    pub classes: BTreeSet<String>,
+    pub excused: Vec<String>,
+}
+
+fn rollback_fired_now(w: &World, who: usize, idx: usize) -> bool {
+    w.clients[who]
+        .rollbacks
+        .iter()
+        .any(|rb| rb.step == w.step && rb.head == w.relay[idx].ev.id)
+}
+
+impl Observer for AuthzObserver {
+    fn wants_before(&self) -> bool {
+        true
+    }
+    fn after_delivery(
+        &mut self,
+        w: &World,
+        who: usize,
+        idx: usize,
+        before: Option<&Vec<Full>>,
+        outcome: &Outcome,
+        _redelivery: bool,
+    ) -> Result<(), Failure> {
+        let Some(before_all) = before else { return Ok(()) };
+        let ev = &w.relay[idx];
+        if !matches!(ev.class, Class::Commit | Class::Proposal) || ev.other_group {
+            return Ok(());
+        }
+        let before = &before_all[0];
+        let after_all = w.full_all(who);
+        let after = &after_all[0];
+        self.judged += 1;
+        let author_pk = w.clients[ev.author].pk_hex();
+        let rolled = rollback_fired_now(w, who, idx);
+        let describe = || {
+            format!(
+                "event #{idx} ({:?}, {}) by c{} handed to c{who} at step {}: outcome {}",
+                ev.class, ev.what, ev.author, w.step, outcome.tag()
+            )
+        };
+        if let Some(r) = &ev.named.rogue {
+            self.classes.insert(format!("rogue-{:?}-{r}->{}", ev.class, outcome.tag()));
+        }
+        // ---- refused: nothing may change
+        if outcome.is_failure_class() {
+            if *before_all != after_all {
+                if rolled {
+                    if self.strict {
+                        return Err(Failure::new(
+                            "refused-event-rolled-the-group-back",
+                            format!("{}; the group was rolled back before the event was refused: {}", describe(), diff_full(before, after)),
+                        ));
+                    }
+                    self.excused.push("O15-rollback-before-validation".into());
+                    return Ok(());
+                }
+                return Err(Failure::new(
+                    "rejected-event-changed-the-group",
+                    format!("{}; yet the client changed: {}", describe(), diff_full(before, after)),
+                ));
+            }
+            if ev.named.rogue.is_some() {
+                self.nontrivial += 1;
+            }
+            return Ok(());
+        }
+        match outcome {
+            Outcome::PendingProposal | Outcome::AutoCommit => {
+                // a proposal alone changes nothing but the pending queue
+                let mut b = before.clone();
+                let mut a = after.clone();
+                for f in [&mut b, &mut a] {
+                    f.pending_adds.clear();
+                    f.pending_removes.clear();
+                    f.pending_proposal_count = 0;
+                    f.pending_commit = false;
+                }
+                if b != a {
+                    return Err(Failure::new(
+                        "proposal-took-effect-by-itself",
+                        format!("{}; beyond the pending queue the client changed: {}", describe(), diff_full(&b, &a)),
+                    ));
+                }
+                if *outcome == Outcome::AutoCommit {
+                    let self_leave = ev.named.proposes_remove == vec![author_pk.clone()];
+                    if !self_leave {
+                        return Err(Failure::new(
+                            "proposal-auto-committed",
+                            format!("{}; only a member's own leave request may be committed automatically", describe()),
+                        ));
+                    }
+                }
+                if ev.named.rogue.is_some() {
+                    self.nontrivial += 1;
+                }
+            }
+            Outcome::Commit => {
+                if before.state_key() == after.state_key() || rolled {
+                    if rolled {
+                        self.classes.insert("delta-not-judged-after-rollback".into());
+                    }
+                    return Ok(());
+                }
+                let (Some(bl), Some(al)) = (&before.level, &after.level) else {
+                    // eviction of this client: judged by C03
+                    return Ok(());
+                };
+                let is_admin = bl.ext.admins.contains(&author_pk);
+                let b_ids: BTreeSet<String> = bl.members.iter().map(|(_, p)| p.clone()).collect();
+                let a_ids: BTreeSet<String> = al.members.iter().map(|(_, p)| p.clone()).collect();
+                let removed: BTreeSet<String> = b_ids.difference(&a_ids).cloned().collect();
+                let added: BTreeSet<String> = a_ids.difference(&b_ids).cloned().collect();
+                let data_changed = bl.ext != al.ext || bl.relays != al.relays;
+                // identities never move
+                for (i, id) in &bl.members {
+                    if let Some((_, id2)) = al.members.iter().find(|(j, _)| j == i) {
+                        if id2 != id && !removed.contains(id) {
+                            return Err(Failure::new(
+                                "identity-changed-at-existing-leaf",
+                                format!("{}; leaf {i} changed identity {} -> {}", describe(), &id[..8], &id2[..8]),
+                            ));
+                        }
+                    }
+                }
+                if !is_admin {
+                    self.nontrivial += 1;
+                    self.classes.insert("accepted-commit-from-non-admin".into());
+                    if !removed.is_empty() || !added.is_empty() || data_changed {
+                        return Err(Failure::new(
+                            "non-admin-commit-changed-roster-or-data",
+                            format!(
+                                "{}; author is not an admin in the receiver's epoch, yet removed {:?}, added {:?}, data changed: {}",
+                                describe(),
+                                removed.iter().map(|s| &s[..8]).collect::<Vec<_>>(),
+                                added.iter().map(|s| &s[..8]).collect::<Vec<_>>(),
+                                data_changed
+                            ),
+                        ));
+                    }
+                } else {
+                    // what the author held pending when it committed
+                    let mut dep_self_leave = BTreeSet::new();
+                    let mut dep_foreign_remove = BTreeSet::new();
+                    let mut dep_foreign_add = BTreeSet::new();
+                    for d in &ev.deps {
+                        let p = &w.relay[*d];
+                        let proposer = w.clients[p.author].pk_hex();
+                        for r in &p.named.proposes_remove {
+                            if *r == proposer {
+                                dep_self_leave.insert(r.clone());
+                            } else {
+                                dep_foreign_remove.insert(r.clone());
+                            }
+                        }
+                        for a in &p.named.proposes_add {
+                            dep_foreign_add.insert(a.clone());
+                        }
+                    }
+                    if !ev.deps.is_empty() {
+                        self.nontrivial += 1;
+                        self.classes.insert("admin-commit-with-foreign-proposals-pending".into());
+                    }
+                    let unnamed_removed: BTreeSet<String> = removed
+                        .iter()
+                        .filter(|r| !ev.named.removed.contains(r) && !ev.named.leave_of.contains(r) && !dep_self_leave.contains(*r))
+                        .cloned()
+                        .collect();
+                    let unnamed_added: BTreeSet<String> =
+                        added.iter().filter(|a| !ev.named.added.contains(a)).cloned().collect();
+                    let unnamed_data = data_changed && !ev.named.data_change;
+                    if !unnamed_removed.is_empty() || !unnamed_added.is_empty() || unnamed_data {
+                        let by_o9 = unnamed_removed.is_subset(&dep_foreign_remove)
+                            && unnamed_added.is_subset(&dep_foreign_add)
+                            && !unnamed_data;
+                        let detail = format!(
+                            "{}; the call named removed {:?} / added {:?} / data change {}, but the receiver saw removed {:?}, added {:?}, data changed {}",
+                            describe(),
+                            ev.named.removed.iter().map(|s| &s[..8]).collect::<Vec<_>>(),
+                            ev.named.added.iter().map(|s| &s[..8]).collect::<Vec<_>>(),
+                            ev.named.data_change,
+                            removed.iter().map(|s| &s[..8]).collect::<Vec<_>>(),
+                            added.iter().map(|s| &s[..8]).collect::<Vec<_>>(),
+                            data_changed
+                        );
+                        if by_o9 && !self.strict {
+                            self.excused.push("O9-commit-sweeps-foreign-pending-proposals".into());
+                        } else if by_o9 {
+                            return Err(Failure::new("admin-commit-carried-foreign-proposals", detail));
+                        } else {
+                            return Err(Failure::new("commit-changed-more-than-it-names", detail));
+                        }
+                    }
+                }
+            }
+            _ => {}
+        }
+        Ok(())
+    }
+}
+
+// ---------------------------------------------------------------------------------------------
+// C04: stored messages are bound to their authenticated sender and to their own content
+// ---------------------------------------------------------------------------------------------
+
+#[derive(Default)]
+pub struct AuthorBindingObserver {
+    pub strict: bool,
+    pub judged: u64,
+    pub nontrivial: u64,
+    pub classes: BTreeSet<String>,
+}
+
+/// canaries are "canary-<step>-<client>" / "forged-<step>-<client>"
+pub fn canary_author(content: &str) -> Option<usize> {
+    let mut it = content.split('-');
+    let head = it.next()?;
+    if head != "canary" && head != "forged" {
+        return None;
+    }
+    let _step = it.next()?;
+    it.next()?.parse().ok()
+}
+
+pub fn nip01_id_of(m: &crate::fingerprint::MsgProj) -> Option<String> {
+    use nostr::JsonUtil;
+    let ev = nostr::UnsignedEvent::from_json(&m.event_json).ok()?;
+    let id = nostr::EventId::new(&ev.pubkey, &ev.created_at, &ev.kind, &ev.tags, &ev.content);
+    Some(id.to_hex())
+}
+
+impl AuthorBindingObserver {
+    pub fn check_store(&mut self, w: &World, who: usize, all: &[Full], ctx: &str) -> Result<(), Failure> {
+        for (gi, f) in all.iter().enumerate() {
+            let mut seen = BTreeSet::new();
+            for x in &f.msgs_created {
+                // what a forging client keeps in its own store about its own forgery is its
+                // own business; the property is about what honest receivers end up with
+                if x.content.starts_with("forged-") && canary_author(&x.content) == Some(who) {
+                    continue;
+                }
+                if let Some(a) = canary_author(&x.content) {
+                    let want = w.clients[a].pk_hex();
+                    if x.pubkey != want {
+                        return Err(Failure::new(
+                            "message-attributed-to-wrong-identity",
+                            format!("{ctx}: c{who} group#{gi} stores message {:?} under author {} but it was produced by c{a} ({})", x.content, &x.pubkey[..8], &want[..8]),
+                        ));
+                    }
+                }
+                // the stored event must be the stored columns
+                if let Ok(ev) = {
+                    use nostr::JsonUtil;
+                    nostr::UnsignedEvent::from_json(&x.event_json)
+                } {
+                    if ev.pubkey.to_hex() != x.pubkey || ev.content != x.content || ev.created_at.as_secs() != x.created_at || ev.kind.as_u16() != x.kind {
+                        return Err(Failure::new(
+                            "stored-event-differs-from-stored-columns",
+                            format!("{ctx}: c{who} message {}", &x.id[..8]),
+                        ));
+                    }
+                }
+                match nip01_id_of(x) {
+                    Some(h) if h == x.id => {}
+                    other => {
+                        return Err(Failure::new(
+                            "stored-id-is-not-the-hash-of-stored-fields",
+                            format!(
+                                "{ctx}: c{who} stores message {:?} under id {} but the NIP-01 hash of its author, timestamp, kind, tags and content is {:?}",
+                                x.content, &x.id[..12], other.map(|s| s[..12].to_string())
+                            ),
+                        ));
+                    }
+                }
+                if !seen.insert(x.content.clone()) && canary_author(&x.content).is_some() {
+                    return Err(Failure::new(
+                        "message-stored-twice",
+                        format!("{ctx}: c{who} holds two messages with content {:?}", x.content),
+                    ));
+                }
+            }
+        }
+        Ok(())
+    }
+}
+
+impl Observer for AuthorBindingObserver {
+    fn wants_before(&self) -> bool {
+        true
+    }
+    fn after_delivery(
+        &mut self,
+        w: &World,
+        who: usize,
+        idx: usize,
+        before: Option<&Vec<Full>>,
+        outcome: &Outcome,
+        redelivery: bool,
+    ) -> Result<(), Failure> {
+        let Some(before_all) = before else { return Ok(()) };
+        let ev = &w.relay[idx];
+        let after_all = w.full_all(who);
+        self.judged += 1;
+        let ctx = format!(
+            "after event #{idx} ({:?}, {}) by c{} was handed to c{who} (outcome {})",
+            ev.class, ev.what, ev.author, outcome.tag()
+        );
+        if let Some(f) = &ev.forged {
+            self.nontrivial += 1;
+            let own = w.clients[ev.author].pk_hex();
+            self.classes.insert(format!(
+                "forged:{}:{}->{}",
+                if f.claimed_pubkey == own { "own-pubkey" } else { "foreign-pubkey" },
+                match (&f.preset_id, f.collides_with) {
+                    (None, _) => "no-id",
+                    (Some(_), None) => "random-id",
+                    (Some(_), Some(c)) if w.relay[c].author == ev.author => "own-earlier-id",
+                    (Some(_), Some(_)) => "id-of-foreign-message",
+                },
+                outcome.tag()
+            ));
+        }
+        if ev.replay_of.is_some() {
+            self.nontrivial += 1;
+            self.classes.insert(format!("replay-of-{:?}->{}", ev.class, outcome.tag()));
+        }
+        if redelivery {
+            self.classes.insert("redelivery".into());
+        }
+        // (3) messages of other authors are untouched by an application-message event
+        // (the forging client's own store is not protected against its own forgeries)
+        if ev.class == Class::App && !(ev.forged.is_some() && ev.author == who) {
+            // the MLS-authenticated producer of the ciphertext (a replay re-wraps someone's ciphertext)
+            let mut root = idx;
+            while let Some(r) = w.relay[root].replay_of {
+                root = r;
+            }
+            let producer = w.relay[root].author;
+            for (gi, (b, a)) in before_all.iter().zip(after_all.iter()).enumerate() {
+                for y in &b.msgs_created {
+                    let foreign = canary_author(&y.content).map(|x| x != producer).unwrap_or(true);
+                    if !foreign {
+                        continue;
+                    }
+                    // the receiver's own forgeries in its own store are not protected
+                    if y.content.starts_with("forged-") && canary_author(&y.content) == Some(who) {
+                        continue;
+                    }
+                    match a.msgs_created.iter().find(|x| x.id == y.id) {
+                        Some(x) if x == y => {}
+                        Some(x) => {
+                            return Err(Failure::new(
+                                "foreign-message-altered",
+                                format!(
+                                    "{ctx}: group#{gi} message {} of another author changed: ({}, {:?}, {}) -> ({}, {:?}, {})",
+                                    &y.id[..8], &y.pubkey[..8], y.content, y.state, &x.pubkey[..8], x.content, x.state
+                                ),
+                            ));
+                        }
+                        None => {
+                            return Err(Failure::new(
+                                "foreign-message-removed",
+                                format!("{ctx}: group#{gi} message {} ({:?}) of another author disappeared", &y.id[..8], y.content),
+                            ));
+                        }
+                    }
+                }
+            }
+        }
+        self.check_store(w, who, &after_all, &ctx)
     }
 }
